@@ -389,19 +389,24 @@ class _MergedCircuit:
             List of mergeable components.
         """
         # Find the index of previous moment which can be merged with `c`.
-        idx = max(
+        qubit_idx = max((self.qubit_indexes[q][-1] for q in c_qs), default=-1)
+        key_idx = max(
             itertools.chain(
-                (self.qubit_indexes[q][-1] for q in c_qs),
                 (self.mkey_indexes[ckey][-1] for ckey in c.ckeys),
                 (self.ckey_indexes[mkey][-1] for mkey in c.mkeys),
             ),
             default=-1,
         )
+        idx = max(qubit_idx, key_idx)
         # Return the set of overlapping components in moment with index `idx`.
         if idx == -1:
             return []
 
-        return [c for c in self.components_by_index[idx] if not c_qs.isdisjoint(c.qubits)]
+        left = [x for x in self.components_by_index[idx] if not c_qs.isdisjoint(x.qubits)]
+        if key_idx >= qubit_idx:
+            # `c` may only join the moment of a key it depends on by merging with that key's holder.
+            left = [x for x in left if (x.mkeys & c.ckeys) or (x.ckeys & c.mkeys)]
+        return left
 
     def get_cirq_circuit(self, cset: ComponentSet, merged_circuit_op_tag: str) -> cirq.Circuit:
         """Returns the merged circuit.
